@@ -657,3 +657,31 @@ Proof.
   induction 1 as [|e es He _ IH]; [reflexivity|].
   cbn [from_raw_install]. destruct e; [rewrite IH; reflexivity | discriminate].
 Qed.
+
+(* ------------------------------------------------------------------ *)
+(* ClientHelloSpec.AlwaysAddPadding (Fingerprinter option) *)
+
+Definition nopsk (es : list aext) : Prop := Forall (fun e => a_is_psk e = false) es.
+Definition fresh_pad : aext := APad PolBoring {| p_len := 0; p_will := false |}.
+
+(* a padding extension met before any pre_shared_key: the spec — functor included — is left alone *)
+Lemma aap_present pre pol st post : nopad pre -> nopsk pre ->
+  always_add_padding (pre ++ APad pol st :: post) = pre ++ APad pol st :: post.
+Proof.
+  intros Hn Hk. induction Hn as [|e pre He _ IH]; [reflexivity|].
+  inversion Hk as [|? ? Hke Hk']; subst. cbn [app always_add_padding]. rewrite He, Hke, (IH Hk'). reflexivity.
+Qed.
+
+Lemma aap_absent es : nopad es -> nopsk es -> always_add_padding es = es ++ [fresh_pad].
+Proof.
+  intros Hn Hk. induction Hn as [|e es He _ IH]; [reflexivity|].
+  inversion Hk as [|? ? Hke Hk']; subst. cbn [app always_add_padding]. rewrite He, Hke, (IH Hk'). reflexivity.
+Qed.
+
+Lemma aap_before_psk pre e post : nopad pre -> nopsk pre -> a_is_pad e = false -> a_is_psk e = true ->
+  always_add_padding (pre ++ e :: post) = pre ++ fresh_pad :: e :: post.
+Proof.
+  intros Hn Hk Hep Hek. induction Hn as [|x pre Hx _ IH].
+  - cbn [app always_add_padding]. rewrite Hep, Hek. reflexivity.
+  - inversion Hk as [|? ? Hkx Hk']; subst. cbn [app always_add_padding]. rewrite Hx, Hkx, (IH Hk'). reflexivity.
+Qed.
